@@ -36,6 +36,14 @@ WellFormed == UNION {{[k |-> "ar", members |-> ms, gnu |-> g, bytes |-> RenderAr
                           g \in {x \in BOOLEAN : x => FitsGnu(ms)}, v \in (IF Len(ms) <= 1 THEN Vias ELSE {"bytes"})} : ms \in Models}
               \cup {[k |-> "ar", members |-> ms, gnu |-> FALSE, bytes |-> RenderAr(ms, FALSE), via |-> v] :
                           ms \in {<<Kind(DB, 1, FALSE), Kind(<<97>>, 2, FALSE)>>, <<Kind(<<97>>, 2, FALSE), Kind(DB, 1, FALSE)>>}, v \in Vias}
+              \* the reader handed to LoadAr has been read from before (to its end, half way)
+              \cup {[k |-> "ar", members |-> ms, gnu |-> FALSE, bytes |-> RenderAr(ms, FALSE), via |-> v] :
+                          ms \in {<<Kind(<<97>>, 3, FALSE), Kind(<<98>>, 2, FALSE), Kind(DB, 1, FALSE)>>, <<Kind(<<97>>, 0, FALSE)>>, <<>>},
+                          v \in {"consumed", "half-consumed"}}
+              \* BSD's extended-name marker "#1/<n>" as a name like any other: the member's reader starts at the member's first byte
+              \cup {[k |-> "ar", members |-> ms, gnu |-> FALSE, bytes |-> RenderAr(ms, FALSE), via |-> "bytes"] :
+                          ms \in {<<Kind(<<35, 49, SLASH, 50>>, 3, FALSE), Kind(<<98>>, 1, FALSE)>>, <<Kind(<<35, 49, SLASH, 51>>, 3, FALSE)>>,
+                                  <<Kind(<<97>>, 1, FALSE), Kind(<<35, 49, SLASH, 49>>, 2, FALSE), Kind(<<98>>, 1, FALSE)>>}}
               \* two members whose 60-byte headers are byte-identical (name, times, ids, mode, size) and whose data differ
               \cup {[k |-> "ar", members |-> ms, gnu |-> FALSE, bytes |-> RenderAr(ms, FALSE), via |-> "bytes"] :
                           ms \in {<<Kind(<<97>>, 3, FALSE), Kind(<<98>>, 2, FALSE), [Kind(<<97>>, 3, FALSE) EXCEPT !.data = <<120, 121, 122>>]>>,
